@@ -65,6 +65,14 @@ Theorem C06_default_typed_partial : forall re T g f t d k,
   exists e, output_value T f t d = ROk e /\ expr_typed T g e t = true.
 Proof. exact frag_typed. Qed.
 
+(* the full C06_default_typed (every kind) is still REFUTED on the repaired tree: a valid default that selects
+   an enum variant with a ONE-element tuple payload renders `E::V(3_i64)` for `V((i64,))` (finding C06-F13;
+   value.rs value_for_{external,adjacent,untagged}_enum vs type_entry.rs output_variant) *)
+Theorem C06_default_typed_tuple1_variant_refuted :
+  exists T f t d k e, validate_value re0 T f t d = ROk k /\ output_value T f t d = ROk e /\
+                      expr_typed T f e t = false /\ expr_any (is_tuple1_variant T) e = true.
+Proof. exact default_typed_tuple1_variant_refuted. Qed.
+
 (* (4) C06_default_exact on the scalar kinds: the rendered expression denotes a value that
    serialises to the schema default.  PARTIAL: composite kinds by the per-run model-vs-serde agreement. *)
 Theorem C06_default_exact_partial : forall re T f t det d k,
